@@ -889,15 +889,18 @@ func verifWarmN(W int) {
 
 func H_C13_entropy(lg Language, L int, W int) {
 	verifWarmN(W)
-	ent := verifBytes("ent", L)
-	keep := make([]byte, L)
-	copy(keep, ent)
+	// the caller's entropy is a sub-slice of a larger buffer (spare capacity behind it)
+	buf := verifBytes("ent", L+4)
+	ent := buf[:L]
+	keep := make([]byte, L+4)
+	copy(keep, buf)
 	got, err := NewMnemonicByEntropy(ent, lg)
 	verifAssert(err == nil, "err-nil")
-	verifAssert(got == specSentence(lg, keep), "result-is-history-free-spec-value")
-	for i := 0; i < L; i++ {
-		verifAssert(ent[i] == keep[i], "entropy-unmodified-"+itoa(i))
+	verifAssert(got == specSentence(lg, keep[:L]), "result-is-history-free-spec-value")
+	for i := 0; i < L+4; i++ {
+		verifAssert(buf[i] == keep[i], "caller-memory-unmodified-"+itoa(i))
 	}
+	keep = keep[:L]
 	// a second call with other arguments does not disturb the first result
 	ent2 := verifBytes("ent2", L)
 	got2, _ := NewMnemonicByEntropy(ent2, lg)
